@@ -682,6 +682,53 @@ def children_follow_data(ctx, rule='C05.children-follow-data'):
     return res
 
 
+def no_narrowing(ctx, rule='C05.no-narrowing'):
+    """lengths, counts, positions, page ids, sizes and checksums are 64-bit quantities end to end: no integer cast to a narrower type, except of a value that is bounded by
+    construction (a remainder, a masked value, a bool, the header slot number 0 / 1).  A count narrowed to `u16` "because pages hold a few thousand elements at most" wraps for a
+    free list of 65 536 ids or a leaf that took 70 000 puts in one transaction; a checksum narrowed to 32 bits lets a crafted overwrite pass"""
+    import c16
+    res = []
+    F = ctx.facts
+    W = {'u8': 8, 'i8': 8, 'u16': 16, 'i16': 16, 'u32': 32, 'i32': 32, 'u64': 64, 'i64': 64, 'usize': 64, 'isize': 64, 'u128': 128, 'i128': 128}
+    n = 0
+    for fn in sorted(F.fns, key=lambda g: g.path):
+        du = None
+        for bb in sorted(fn.reachable_blocks()):
+            for si, st in enumerate(fn.blocks[bb]['stmts']):
+                if st['k'] != 'assign' or st['rv']['k'] != 'cast' or st['rv'].get('ck') != 'IntToInt':
+                    continue
+                a, b = st['rv'].get('from'), st['rv'].get('to')
+                if a not in W or b not in W or W[b] >= W[a]:
+                    continue
+                if any(x.startswith('macro:') and ('assert' in x or 'format' in x or 'panic' in x or 'write' in x) for x in st.get('span', {}).get('exp', [])):
+                    continue
+                n += 1
+                du = du or ctx.du(fn)
+                e = du.sym(st['rv']['op'])
+                bounded = c16._tree_has(e, lambda x: (x[0] == 'bin' and x[1] in ('Rem', 'BitAnd', 'Eq', 'Ne', 'Lt', 'Le', 'Gt', 'Ge') ) or
+                                        (x[0] == 'call' and last_seg(strip_generics(x[1])) in ('min', 'clamp', 'from') and 'bool' in str(x)) or
+                                        (x[0] == 'field' and x[2] and x[2][-1] == 'meta_page'))
+                if e[0] == 'call' and last_seg(strip_generics(e[1])) == 'from' and e[2] and e[2][0][0] == 'bin' and e[2][0][1] in ('Eq', 'Ne', 'Lt', 'Gt', 'Le', 'Ge'):
+                    bounded = True
+                # the header slot number (0 / 1) is stored as a u32
+                dl = st['p']['l']
+                if any(s2['rv']['k'] == 'use' and op_local(s2['rv']['op']) == dl for b2, i2, s2 in stores_to_field(fn, 'Meta', 'meta_page')):
+                    bounded = True
+                if any(e2['k'] == 'field' and e2.get('name') == 'meta_page' for e2 in st['p']['pr']):
+                    bounded = True
+                if bounded:
+                    res.append(ok(rule, 'narrowing cast at %s is of a value bounded by construction' % fn.loc(bb, si), sites=1))
+                else:
+                    res.append(bad(rule, '%s | %s narrowed to %s' % (fn.qual, a, b),
+                                   '%s casts `%s` from %s to %s at %s: a length, count, position, id, size or checksum that exceeds the narrow type wraps silently (the free list of a '
+                                   'large delete, a leaf filled in one transaction, a key longer than 64 KiB), and what is stored or compared is a different number'
+                                   % (fn.qual, c16._fmt(e)[:60], a, b, fn.loc(bb, si)), where=fn.loc(bb, si)))
+    f = floor(rule, 'narrowing integer casts in the crate', n, 1)
+    if f:
+        res.append(f)
+    return res
+
+
 def run(ctx, tier):
     results = []
     results += freelist_order(ctx)
@@ -691,6 +738,7 @@ def run(ctx, tier):
     results += reader_writer_tables(ctx)
     results += page_kinds(ctx)
     results += run_length(ctx)
+    results += no_narrowing(ctx)
     results += children_follow_data(ctx)
     # the built-in check (which strict mode runs inside every commit) accounts for the whole run of every page kind, or it rejects well-formed trees
     import c16
